@@ -251,9 +251,11 @@ func c06AST(nodes []*ref.NNode, seq []ref.Sym) ([]gen.Node, bool) {
 					return nil, false
 				}
 				if cl.Sym == ref.SElse {
-					if i != len(n.Clauses)-1 {
-						return nil, false
+					if node.HasElse {
+						return nil, false // two else clauses: not stated
 					}
+					// the else clause of a case is the fallback wherever it stands among the when clauses
+					_ = i
 					node.HasElse, node.Else = true, cb
 				} else {
 					node.Whens = append(node.Whens, []gen.Expr{gen.Lit{V: gen.Int(1)}})
@@ -320,6 +322,41 @@ func c06Check(c *core.Ctx, e *liquid.Engine, seq []ref.Sym, kind string) {
 		}
 		c.Violate(key, what, map[string]any{"source": src, "reference_accepts": accept, "observed": pr.Brief()})
 		return
+	}
+	// tag names are what they are spelled: the same template with ONE block, clause or end tag written in other letter
+	// case no longer has that tag (it has an unknown one), so its blocks are not properly closed and it is rejected
+	if accept && c.CaseNo()%5 == 0 {
+		toks := ref.Tokens(src, ref.DefaultDelims)
+		var tags []int
+		for ti, t := range toks {
+			// (not the tags of raw and comment blocks: an end tag that no longer is one lets the body run on to the next)
+			if t.Kind == ref.Tag && ref.BlockWord(t.Name) && !strings.HasSuffix(t.Name, "raw") && !strings.HasSuffix(t.Name, "comment") {
+				tags = append(tags, ti)
+			}
+		}
+		if len(tags) > 0 {
+			ti := tags[int(c.CaseNo()/5)%len(tags)]
+			name := toks[ti].Name
+			mangled := strings.ToUpper(name)
+			if c.CaseNo()%2 == 0 {
+				mangled = strings.ToUpper(name[:1]) + name[1:]
+			}
+			var sb strings.Builder
+			for tj, t := range toks {
+				if tj == ti {
+					sb.WriteString(strings.Replace(t.Src, name, mangled, 1))
+				} else {
+					sb.WriteString(t.Src)
+				}
+			}
+			_, mp := core.ParsePlain(e, sb.String())
+			c.Eval(1)
+			c.Obs("letter_case_variants", 1)
+			if mp.OK() || mp.Panic != "" {
+				c.Violate("accepted-invalid|letter-case|"+name, "a template in which one block, clause or end tag is written in other letter case (so that a block is left unclosed, or a clause stands alone) was accepted",
+					map[string]any{"source": sb.String(), "original": src, "observed": mp.Brief()})
+			}
+		}
 	}
 	if !accept {
 		c.Obs("rejected", 1)
